@@ -132,6 +132,9 @@ def gen_exhaustive(depth, hosts_set):
                 for name, mk in CONTROL_TEMPLATES:
                     out.append(dict(hosts=nh, dials=dials, verifies=verifs, controls=mk(), end=300001, subs=False,
                                     tag=f"exh/{name}"))
+                if "wrongid" in seq:     # the exclusion bookkeeping compares normalised addresses
+                    out.append(dict(hosts=nh, dials=dials, verifies=verifs, controls=CONTROL_TEMPLATES[0][1](), end=300001,
+                                    subs=False, tag="exh/v6-ensure-only", style="v6"))
     return out
 
 
@@ -211,7 +214,8 @@ def gen_random(r, n, max_time=600000):
         end = (t + r.choice([5001, 100001, max_time])) | 1
         while end in seen:
             end += 2
-        out.append(dict(hosts=nh, dials=dials, verifies=verifs, controls=cc, end=end, subs=r.random() < 0.4, tag="random"))
+        out.append(dict(hosts=nh, dials=dials, verifies=verifs, controls=cc, end=end, subs=r.random() < 0.4, tag="random",
+                        style=r.choice(["v4", "v4", "v6"])))
     return out
 
 
@@ -378,6 +382,7 @@ def run_core(ctx, pid, oracle, gens, corr_name):
         cov.case(json.dumps(scj, sort_keys=True), ndial > 0 and not tie,
                  sample=dict(scenario=scj, trace_head=itrace[:12]) if cov.evaluations % 1499 == 0 else None,
                  family=sc.get("tag", "?").split("/")[0], hosts=sc["hosts"], attempts=min(ndial, 20),
+                 address_style=sc.get("style", "v4"),
                  controls=len(sc.get("controls", [])))
     if not ctx.get("replay"):
         step = max(1, len(scs) // 6)
